@@ -108,6 +108,15 @@ def jobs_for(prop, tier):
             jobs.append({"engine": "S", "prop": prop, "label": sp.label() + "#" + _h(sp), "spec": sp.to_json(), "caps": ccaps})
     elif prop in F_FAMILIES:
         jobs = f_jobs(prop, tier)
+    if prop == "C20":
+        # store / edge level: every well-formed call and kernel step, also between the kernel events of one instant
+        scaps = {"max_states": 8000 if q else 200000, "max_seconds": 900 if q else 3000}
+        subs = [S("cconv", 2, live=2, age_cap=3, grid=1, acc=1), S("cconv", 2, live=2, age_cap=3, grid=1, acc=0),
+                S("sconv", 2, live=2, age_cap=3, grid=1, acc=1, delay=1), S("buffer", 2, live=2, mode="LIFO", delays=[0, 1], age_cap=2),
+                S("fleet", 2, live=2, delay=2, transit=0, age_cap=3, grid=1), S("fleet", 2, live=2, delay=1, transit=1, age_cap=3, grid=1),
+                S("rpfs", 2, live=2, prios=[0], td=1, age_cap=2)]
+        for sp in subs:
+            jobs.append({"engine": "S", "prop": prop, "label": sp.label() + "#" + _h(sp), "spec": sp.to_json(), "caps": scaps})
     elif prop == "C19":
         jobs = [{"engine": "C19", "prop": prop, "label": "C19-differential", "tier": tier}]
     elif prop == "C07":
@@ -183,6 +192,8 @@ def run_job(job, seed):
         sp = Spec.from_json(job["spec"])
         prop = job["prop"]
         mons = list(M.MONITORS.get(prop, []))
+        if prop == "C20":
+            mons = [M.C20S]
         if prop == "C12" and sp.get("order_only"):
             from . import conveyor_ref
             mons = [M.Avail, conveyor_ref.C12Order]
